@@ -30,11 +30,19 @@ EXTRA = {
         "value (NaN = NaN) between implementation, model echo and a direct call of the pure converter",
         "the callable dispatcher form and the column names do not raise / are strings; `to` is a str, list, tuple, "
         "dict, callable or a non-Sequence object (bytes, range and other exotic Sequences are outside the model)",
+        "the values setter's assignment primitive is a parameter of the model with the law `Positional` (values "
+        "taken position by position, row labels untouched); pandas satisfying it is sampled on permuted, duplicate, "
+        "string and float indexes, not proved",
+        "a numeric column asked for the unit text / onoff / datetime with a converter that accepts it is relabelled "
+        "(values = converter output, unit = requested): within C06 as stated; whether the resulting table is a "
+        "valid table is C15's matter (with a dtype-changing converter the result cannot even be read: "
+        "ColumnUnitException; reported, only dtype-preserving converters are generated for this shape)",
         "the per-column spellings `__base__` / `__origin__` and the whole-table form 'origin' are modelled and "
         "compared with the code but are outside the oracle (the statement does not speak about them)",
     ],
-    "explanation": "convertUnits_refines, convert_values_and_label, untargeted_unchanged, original_unchanged, "
-                   "special_skipped_by_base, special_refused, failure_is_atomic and the dispatcher lemmas "
+    "explanation": "convertUnits_refines, convert_succeeds, convert_values_and_label, untargeted_unchanged, "
+                   "original_unchanged, special_skipped_by_base, special_refused, failure_is_atomic, "
+                   "first_failure_error and the dispatcher lemmas "
                    "(Props/C06.lean) hold for every table, row index, dispatcher argument and (stateful) converter; "
                    "INCONVERTIBLE_UNIT_INDICATORS is pinned from the source each run.",
     "trusted_base": ["pandas positional column assignment and DataFrame.copy (observed per case)",
@@ -63,6 +71,12 @@ def affine(values, from_unit, to_unit=None):
     return (base - b2) / a2, to_unit.upper()
 
 
+def ident(values, from_unit, to_unit=None):
+    """a permissive converter: knows every unit (also 'text' / 'onoff' / 'datetime' as targets), values unchanged"""
+    import numpy as np
+    return np.array(np.asarray(values), copy=True), (to_unit if to_unit is not None else from_unit + "_base")
+
+
 def affine_inverse(values, unit_now, unit_before):
     return affine(values, unit_now, unit_before)[0]
 
@@ -83,9 +97,11 @@ class ConvBoom(RuntimeError):
 
 UNITS = {"affine": ["u1", "u2", "uh", "uk", "p", "q"],
          "demo": ["mm", "m", "C", "K", "g", "kg", "meter"],
-         "pint": ["mm", "m", "cm", "km", "g", "kg", "degC", "kelvin", "s", "min"]}
-BAD_UNITS = {"affine": ["zz", "m"], "demo": ["furlong", "u1"], "pint": ["kg", "m", "nosuchunit"]}
-PURE = {"affine": affine, "demo": demo, "pint": pint_conv}
+         "pint": ["mm", "m", "cm", "km", "g", "kg", "degC", "kelvin", "s", "min"],
+         "ident": ["m", "mm", "anything"]}
+BAD_UNITS = {"affine": ["zz", "m"], "demo": ["furlong", "u1"], "pint": ["kg", "m", "nosuchunit"],
+             "ident": ["text", "onoff", "datetime"]}     # special units requested for a numeric column: relabelled
+PURE = {"affine": affine, "demo": demo, "pint": pint_conv, "ident": ident}
 
 
 class Recorder:
@@ -265,13 +281,19 @@ def run_impl(case):
                 r = t.convert_units(to_obj)
             else:
                 r = t.convert_units(to_obj, rec)
-        res["result"] = snapshot(r)
-        res["is_new"] = (r is not t) and (r.df is not t.df)
+        res["is_new"] = (r is not t) and (getattr(r, "df", None) is not t.df)
         res["result_type"] = type(r).__name__
     except Exception as e:
         res["exc"] = type(e).__name__
+        r = None
     finally:
         pdtable.units.default_converter = old_default
+    if r is not None:
+        try:
+            res["result"] = snapshot(r)
+        except Exception as e:       # convert_units returned, but what it returned cannot be read
+            res["unreadable"] = type(e).__name__
+            res["result"] = None
     res["after"] = snapshot(t)
     res["log"] = rec.log if rec is not None else []
     return res
@@ -314,6 +336,10 @@ def oracle(case, obs, out):
         out.count("oracle:original_only")
         return   # per-column spellings: modelled, not part of the statement
     pure = PURE[cv["pure"]]
+    if obs.get("unreadable"):
+        fail("convert_units returned a table whose units / values cannot be read", obs["unreadable"], "a Table",
+             "unreadable:" + obs["unreadable"])
+        return
     expected_cols, expected_exc, calls = [], None, []
     for c, tgt in zip(cols, targets):
         if tgt is None or tgt == c["unit"]:
@@ -336,6 +362,7 @@ def oracle(case, obs, out):
             break
         import pandas as pd
         expected_cols.append((c, {"vals": toks(pd.Series(vals).tolist()),
+                                  "dtype": str(pd.Series(vals).to_numpy().dtype),
                                   "unit": reported if tgt == "__base__" else tgt}))
     # the converter was consulted once per targeted convertible column, in order, with the original values
     seen = [(e["vals"], e["from"], e["to"]) for e in obs["log"]]
@@ -344,6 +371,9 @@ def oracle(case, obs, out):
              [list(s[1:]) for s in seen], [list(s[1:]) for s in calls], "converter_calls")
         return
     out.count("oracle:expects_" + (expected_exc or "table"))
+    if expected_exc is None and any(e is not None and e["unit"] in SPECIAL and c["unit"] not in SPECIAL
+                                    for c, e in expected_cols):
+        out.count("oracle:numeric_column_relabelled_special")
     if expected_exc is not None:
         if "exc" not in obs:
             fail("a conversion failed / was refused but a table was returned", "table", expected_exc,
@@ -381,6 +411,10 @@ def oracle(case, obs, out):
                 fail(f"column {c['name']!r} does not hold the converter's output row for row", got["vals"], exp["vals"],
                      "values")
                 return
+            if got["dtype"] != exp["dtype"]:
+                fail(f"column {c['name']!r} does not have the data type of the converter's output", got["dtype"],
+                     exp["dtype"], "dtype")
+                return
             if cv["pure"] == "affine":
                 back = affine_inverse([untok(v) for v in got["vals"]], "u1" if targets[j] == "__base__" else targets[j],
                                       c["unit"])
@@ -398,6 +432,8 @@ def compare(case, obs, ans, out):
         out.mismatch("driver error", case, {k: obs.get(k) for k in ("exc", "result")}, ans)
         return
     m = ans["res"]
+    if obs.get("unreadable"):
+        return          # reported by the oracle; there is no observation to compare
     if "exc" in obs:
         if m != {"exc": obs["exc"]}:
             out.mismatch("convert_units: exception vs Lean model", case, {"exc": obs["exc"]}, m)
@@ -464,7 +500,7 @@ def unit_choice(rng, col, family):
         return None
     if r < 0.35:
         return col["unit"]
-    if r < 0.92:
+    if r < (0.70 if family == "ident" else 0.92):
         return rng.choice(UNITS[family])
     return rng.choice(BAD_UNITS[family])
 
@@ -513,7 +549,7 @@ def gen_conv(rng, family):
 
 
 def gen_case(rng, seed, idx, tier):
-    family = rng.choice(["affine", "affine", "affine", "demo", "demo", "pint"])
+    family = rng.choice(["affine", "affine", "affine", "demo", "demo", "pint", "ident"])
     table = gen_table(rng, family)
     to = gen_to(rng, table, family)
     conv = gen_conv(rng, family)
@@ -548,6 +584,12 @@ def fixed_cases(seed):
                         "to": copy.deepcopy(to), "conv": dict(cv)})
     two = {"name": "t", "dests": ["all"], "nrows": 2, "index": ["r1", "r0"], "index_kind": "strings", "cols": [
         {"name": "a", "kind": "int", "unit": "p", "values": [8, 16]}, {"name": "b", "kind": "float", "unit": "q", "values": [0.5, None]}]}
+    # a numeric column asked for a special unit with a converter that accepts it: relabelled (C06 holds; C15 matter)
+    for to in ({"kind": "dict", "m": [["a", "text"]]}, {"kind": "list", "xs": ["onoff", "datetime"]},
+               {"kind": "callable", "m": [["b", "text"]]}):
+        out.append({"seed": seed, "index": -1 - len(out), "family": "ident", "table": copy.deepcopy(
+            dict(two, cols=[dict(two["cols"][0], unit="m"), dict(two["cols"][1], unit="mm")])),
+            "to": to, "conv": {"kind": "pure", "pure": "ident"}})
     for s in ("pq", "qp", "pp", "ab", "p", "base", "origin"):
         out.append({"seed": seed, "index": -1 - len(out), "family": "affine", "table": copy.deepcopy(two),
                     "to": {"kind": "str", "s": s}, "conv": dict(pure)})
